@@ -523,6 +523,8 @@ func __fresh[T any](x T) bool       { return true }
 func __is(err error, target error) bool { return true }
 func __ri(n int) int                    { return 0 }
 func __rm[T any](n int) T { var z T; return z }
+func __recvs() int { return 0 }
+func __recvval[T any](i int) T { var z T; return z }
 func __eq[T any](a, b T) bool           { return true }
 func __alloc[T any](x T) bool           { return true }
 func __ite[T any](c bool, a, b T) T     { return a }
@@ -599,6 +601,8 @@ func __fresh[T any](x T) bool       { return true }
 func __is(err error, target error) bool { return __errors.Is(err, target) }
 func __ri(n int) int                    { return 0 }
 func __rm[T any](n int) T { var z T; return z }
+func __recvs() int { return 0 }
+func __recvval[T any](i int) T { var z T; return z }
 func __seen[K comparable](k K) bool     { return true }
 func __eq[T any](a, b T) bool           { return __reflect.DeepEqual(a, b) }
 func __alloc[T any](x T) bool           { return true }
